@@ -5,6 +5,14 @@ PROPS = {
     'C07': {'units': ['U-VT'],
             'assumptions': ['callers outside the units (typer unification, function_calls::use_function) are not under contract'],
             'trusted': []},
+    'C04': {'units': ['U-LABEL'],
+            'assumptions': ['fewer than 2^32 labels per program (precondition of analyze)',
+                            'that a Poison::Error(UndefinedLabel/DuplicateDeclarationLabel) surfaces as rejection with E400/E420 is the resolver\'s error collection, not under contract (code numbers: C13 unit)'],
+            'trusted': []},
+    'C06': {'units': ['U-SYN'],
+            'assumptions': ['L1800 lint half of the property: linter.rs not yet under contract',
+                            'that Poison::Error(MissingBraces/NonFinalLoopStatement/MisplacedLoopStatement) surfaces as E840/E800/E801 is the resolver\'s error collection'],
+            'trusted': []},
     'C09': {'units': ['U-VT'], 'assumptions': [], 'trusted': []},
     'C11': {'units': ['U-VT'], 'assumptions': [], 'trusted': []},
 }
@@ -21,7 +29,7 @@ NOT_APPLICABLE = {
 }
 # properties planned but not yet claimed are listed here until their check exists
 PENDING = {
-    'C04': 'check under construction (U-LABEL)', 'C06': 'check under construction (U-SYN)', 'C08': 'check under construction (U-MUT)',
+'C08': 'check under construction (U-MUT)',
     'C12': 'check under construction (U-EXPORT)', 'C13': 'check under construction (U-CODE)', 'C14': 'check under construction (U-LEXD)',
     'C15': 'check under construction (delta units)', 'C16': 'check under construction (U-PARSE layout)', 'C17': 'check under construction (U-HDR)',
 }
@@ -32,6 +40,10 @@ for _p, _r in PENDING.items():
 LEVELS = {
     'C07': {'text': 'PARTIAL: proof (Verus, unbounded over all value types of any depth) of the coercion/equality/autoderef relations of value_type.rs against a declarative spec: equals == identity up to the char8~u8 alias, can_coerce_into / can_coerce_address_into == exactly the documented array/struct-to-view/slice coercions, autoderef never changes the underlying element/primitive type (theorem). The typer unification and argument checks are NOT under contract.',
             'note': 'trusted: Verus+Z3, slicer/splicer, derived PartialEq/Clone are structural (assumed specs), identifier == is structural; Box::as_ref, Option::map_or std specs'},
+    'C04': {'text': 'Proof (Verus, unbounded over all statement trees and all programs): every function of label_references.rs verified against an abstract label-stack semantics; Statement/Block/FunctionBody/Declaration/analyze results equal the oracle (goto resolves iff a label of that name is visible, else E400 variant; label accepted iff name not visible, else E420 variant), stack balanced per block and empty between functions; theorem_visibility proves visible <=> label later in same block or in an enclosing block.',
+            'note': 'trusted: Verus+Z3, slicer/splicer, rules R1/R2/R14 (iterator chains to loops, iter().find to verified slice_find), derived Clone is identity, [T]::reverse spec, vstd Vec/String specs; opaque: Location, Expression, Comparison, ...; assumes < 2^32 labels; rejection surfacing (resolver) not under contract'},
+    'C06': {'text': 'Proof (Verus, unbounded over all statement trees) that syntax.rs replaces exactly the statements violating the placement rules by the E840/E800/E801 error variants (relational oracle ok/okb/okf over the three context flags, incl. flag protocol inv/mono) for Statement, Block, FunctionBody, Declaration and analyze. PARTIAL: the L1800 lint sentence (linter.rs) is not yet under contract.',
+            'note': 'trusted: Verus+Z3, slicer/splicer, rules R1/R3, derived Default/Clone specs, [T]::reverse spec; opaque expression/location types; surfacing of Poison as diagnostics (resolver) not under contract'},
     'C09': {'text': 'PARTIAL: proof that min_i128/max_u128 are exactly -2^(bits-1) / 2^(bits-1)-1 / 2^bits-1 for every integer type; lexer/linter parts added as their units land.',
             'note': 'trusted: Verus+Z3, slicer/splicer; usize/pointers are 64-bit as the code itself assumes'},
     'C11': {'text': 'PARTIAL: proof that the type-legality predicates of value_type.rs (is_wellformed, can_be_*) equal a declarative spec of the E350-E359 shapes for every type of any nesting depth; permutation invariance and cycle detection are NOT under contract.',
